@@ -61,12 +61,15 @@ def gen(tier, rng, harness, driver):
         # the same site with every KIND of callee value (the spelled type depends on the callee's type only, not on what the callee is)
         lines.append(lines[-1] + " " + rng.choice(["param", "load", "bitcast", "alias", "asm"]))
     # constructors: reuse the C06 / C08 generators (oracle lines only)
-    for l in pC06.gen("quick" if tier == "quick" else "thorough", rng, harness, driver)[: (600 if tier == "quick" else 40000)]:
-        if l.startswith(("!typ.ok", "typ.ir")):
-            lines.append(l)
-    for l in pC08.gen("quick", rng, harness, driver)[: (600 if tier == "quick" else 6000)]:
-        if l.startswith(("!num.check", "num.api", "num.modapi")):
-            lines.append(l)
+    lines += [l for l in pC06.gen("quick" if tier == "quick" else "thorough", rng, harness, driver) if l.startswith(("!typ.ok", "typ.ir"))][: (600 if tier == "quick" else 40000)]
+    lines += [l for l in pC08.gen("quick", rng, harness, driver) if l.startswith(("!num.check", "num.api", "num.modapi"))][: (900 if tier == "quick" else 6000)]
+    # every pair / triple of KINDS of unnamed global entity built through the Module builder methods, in every order (they share one ID sequence,
+    # numbered in the order the module prints them: global variables, aliases, indirect functions, functions)
+    import itertools
+    for k in (2, 3):
+        for ents in itertools.product(["G:u", "A:u", "I:u", "F:u", "D:u"], repeat=k):
+            lines.append("num.modapi " + " ".join(ents))
+            lines.append("!num.apiok " + " ".join(ents))
     return lines
 
 
